@@ -82,7 +82,10 @@ CLAIMS = {
              "code every stream over a 9-symbol alphabet up to L is delivered under EVERY composition into reads and 4 buffer sizes, message "
              "streams under seeded schedules (single bytes, empty reads, exact fill, suspended transport/handler futures); TraceScpi requires "
              "identical calls/errors/response bytes for all schedules of a stream, equality with run-per-message when messages fit, and "
-             "acceptance by the stream semantics ProcAccepts.",
+             "acceptance by the stream semantics ProcAccepts. Every recorded session is also compared step by step with the "
+             "implementation-shaped loop as a function of its reads (ScpiProcessImpl: room offered per read, calls/errors, one write+flush per "
+             "answered run_from; mismatch = IMPL-DRIFT note). A hand-written Interface whose root_node() changes at run time is judged "
+             "differentially (procdiff: all schedules and run-one-at-a-time agree).",
         design_ref="DESIGN.md section 4 C07", note=TRUST, technique=TV),
     "C08": dict(
         category="model_checking",
@@ -110,7 +113,10 @@ CLAIMS = {
              "real code each session is run fault-free and once per position of its read/write/flush call sequence with a unique error "
              "injected there; TraceScpi requires: all responses of completed messages written and flushed before the next read, nothing but "
              "responses written, process returns exactly the injected error with no further transport call, and the trace before the fault "
-             "equals the fault-free one.",
+             "equals the fault-free one. Block uploads of 65535..100000 bytes through process::<131072> (whole, in 1460-byte reads, split "
+             "at 65536) are judged differentially (record kind procdiff: monitors, end conditions, schedule independence, expected answer). "
+             "Every fault-free session is also compared step by step with the implementation-shaped loop (ScpiProcessImpl; mismatch = "
+             "IMPL-DRIFT note, not a violation).",
         design_ref="DESIGN.md section 4 C10", note=TRUST, technique=TV),
     "C11": dict(
         category="model_checking",
@@ -147,7 +153,7 @@ CLAIMS = {
         text="MCScpiTree checks for every enumerated declaration set that macro-shaped trie insertion fails exactly when two handlers share "
              "a spelling of the same kind (identical, short-equals-long, optional-induced, case-only), including that a declaration's own "
              "coinciding expansions are not a collision. A seeded sample of ambiguous sets is put through the real macro in a generated crate "
-             "(every module must be rejected, matched by diagnostic line), and each one's collision-free twin plus a sample of unambiguous "
+             "(every module must be rejected, matched by diagnostic line, in the release AND the dev profile), and each one's collision-free twin plus a sample of unambiguous "
              "sets must compile (and dispatch correctly).",
         design_ref="DESIGN.md section 4 C14",
         note=TRUST + " The observable is the compiler's exit status / diagnostics; TLC decides which sets must and must not build.",
